@@ -245,13 +245,19 @@ func runProperty(p *Property, tier string, seed int64, verifDir string, only int
 	lastProgress.Store(time.Now().UnixNano())
 	done := make(chan struct{})
 	go func() {
-		t := time.NewTicker(5 * time.Second)
+		t := time.NewTicker(1 * time.Second)
 		defer t.Stop()
 		for {
 			select {
 			case <-done:
 				return
 			case <-t.C:
+				var ms runtime.MemStats
+				runtime.ReadMemStats(&ms)
+				if ms.Sys > 12<<30 {
+					fmt.Printf("INCONCLUSIVE property=%s reason=memory guard: process reserved %d MiB while running case %d (and up to %d neighbours)\n", p.ID, ms.Sys>>20, c.curCase.Load(), workers)
+					os.Exit(2)
+				}
 				if time.Since(time.Unix(0, lastProgress.Load())) > 180*time.Second {
 					buf := make([]byte, 1<<20)
 					buf = buf[:runtime.Stack(buf, true)]
